@@ -6,6 +6,7 @@ package gobeansdb
 import (
 	"fmt"
 	"path/filepath"
+	"strings"
 
 	"github.com/douban/gobeansdb/store"
 	"verif/model"
@@ -30,6 +31,8 @@ type vfHistArgs struct {
 	InvalidKeyPct  int
 	FullCheckEvery int
 	Variants       string
+	GCMonitor      bool
+	Prop           string // the property this run decides ("c03", "c18", "c13")
 }
 
 // vfKeysForServed generates keys whose reference bucket is served by cfg.
@@ -108,6 +111,28 @@ func vfHistories(env *vfc.Env, prefix string, extra func(c *vfHistCase, sut *vfS
 		}
 		m := ref.NewRefMap(a.Cfg.CheckVHash)
 		run := model.NewRunner(sut, m, res, id, model.Options{Prefix: prefix, Colliding: colliding, Replay: c, FullCheckEvery: a.FullCheckEvery})
+		sut.keysFn = func() []string {
+			ks := make([]string, 0, len(m.LastWrite))
+			for k := range m.LastWrite {
+				ks = append(ks, k)
+			}
+			return ks
+		}
+		if a.GCMonitor {
+			run.Opt.AfterOp = func(i int, op model.Op, rr *model.Runner) {
+				if op.K != "gc" {
+					return
+				}
+				vfGCMonitor(sut, rr, colliding, func(sig, detail string) {
+					rr.Tracef("gc monitor: %s", sig)
+					if a.Prop != "" && !strings.HasPrefix(sig, a.Prop+":") {
+						res.Event("other_property."+sig, 1) // reported by that property's own check
+						return
+					}
+					rr.Fail(sig, detail)
+				}, res.Seen, res.Event)
+			}
+		}
 		if extra != nil {
 			extra(c, sut, run)
 		}
